@@ -98,6 +98,16 @@ def make_files(d, thorough):
     two = os.path.join(d, "two_pieces.vtu")
     open(two, "w").write(txt[:b_] + "\n    " + piece.replace("0.5 1.5 2.5 3.5", "4.5 5.5 6.5 7.5").replace("0.5", "4.5") + txt[b_:])
     out.append(("vtu/two-pieces", two, []))
+    # ... and the same for poly data
+    onep = os.path.join(d, "one_piece_tmp.vtp")
+    V.write_vtp(onep, PTS[:4], {"Polys": [[0, 1, 2, 3]]}, [("p", "Float64", 1, [0.5, 1.5, 2.5, 3.5])], [("c", "Float64", 1, [10.0])], V.Cfg("ascii"))
+    txt = open(onep).read()
+    os.unlink(onep)
+    a_, b_ = txt.index("<Piece "), txt.index("</Piece>") + len("</Piece>")
+    piece = txt[a_:b_]
+    twop = os.path.join(d, "two_pieces.vtp")
+    open(twop, "w").write(txt[:b_] + "\n    " + piece.replace("0.5 1.5 2.5 3.5", "4.5 5.5 6.5 7.5") + txt[b_:])
+    out.append(("vtp/two-pieces", twop, []))
     # csv
     c = os.path.join(d, "tab.csv")
     write_csv(c, ["x", "y", "n"], [[0.5, 1.25, 2.5], [3.0, 4.5, 10.0], [1, 22, 333]])
